@@ -244,7 +244,9 @@ func (a *adapter) Data(data []byte, streamEnded bool) error {
 		default:
 			panic(fmt.Sprintf("unexpected state: %v", a.state))
 		}
-		if a.buffer.Len() == 0 {
+		// A zero-length message needs no further bytes, so do not wait for more data once its
+		// prefix has been read.
+		if a.buffer.Len() == 0 && !(a.state == readingMessageData && a.length == 0) {
 			return nil
 		}
 	}
